@@ -530,6 +530,15 @@ func (u *Upstream) serveX(id int, c net.Conn) {
 				}
 			}
 		}
+		if !isBolt {
+			if xid, xerr := XFrameID(u.Proto, frame); xerr == nil {
+				r.XID = xid
+			}
+			if toks := TokensIn(frame); len(toks) > 0 {
+				r.Token = toks[0]
+			}
+			r.Body = frame
+		}
 		u.record(r)
 		go func() {
 			a := u.Script(r)
@@ -551,16 +560,24 @@ func (u *Upstream) serveX(id int, c net.Conn) {
 				out = XResponse(u.Proto, uint32(r.XID), uint16(a.Status), r.Token, a.Body)
 			}
 			if out == nil {
+				out = XBuildResponse(u.Proto, r.XID, r.Token, a.Body)
+			}
+			if out == nil {
 				return
 			}
 			switch a.Kind {
 			case "reply-unknown-id":
-				bad := append([]byte(nil), out...)
-				off := 5
-				if u.Proto == "boltv2" {
-					off = 6
+				var bad []byte
+				if isBolt {
+					bad = append([]byte(nil), out...)
+					off := 5
+					if u.Proto == "boltv2" {
+						off = 6
+					}
+					binary.BigEndian.PutUint32(bad[off:], uint32(r.XID)+0x40000000)
+				} else {
+					bad = XBuildResponse(u.Proto, (r.XID+0x40000000)&0x7fffffff, r.Token, a.Body)
 				}
-				binary.BigEndian.PutUint32(bad[off:], uint32(r.XID)+0x40000000)
 				write(bad)
 				write(out)
 			case "reply-twice":
